@@ -42,6 +42,15 @@ class World(object):
         s.gates = {}
         s.live_pool = ZERO      # census of spawned-and-not-joined pool threads
         s.install_natives()
+        # ghost: the step at which reschedule_queue was last entered for each job queue (keyed by the queue's Arc allocation)
+        s.resched_at = {}
+        def on_resched(th, st, f, args, g):
+            if len(args) < 2: return
+            q = s.m.load(args[1], g) if isinstance(args[1], Ref) else args[1]
+            if not isinstance(q, St) or not isinstance(q.f.get('p'), Ref): return
+            for x, c, p_ in q.f['p'].tg:
+                s.resched_at[c.id] = Ite(And(g, x), BV(s.m.now), s.resched_at.get(c.id, ZERO))
+        s.m.enter_hooks = [('::reschedule_queue', on_resched)]
     # ------------------------------------------------------------------ ghost helpers
     def g(s, name, default=None):
         v = s.ghost.get(name)
